@@ -384,6 +384,51 @@ let witness : (string * int) option ref = ref None    (* shortest execution with
 
 let mk_sys toks =
   match toks with
+  | "ra" :: size :: prog :: _ ->
+    (* release/acquire view model of the sequence lock against the real UnrestrictedAtomic run with
+       injected stale values of write_cell: the staleness oracle is chosen from the value read *)
+    let n = int_of_string size in
+    let aprogs = Array.of_list (List.map (fun t -> List.map parse_aop (split_on ',' t)) (String.split_on_char '|' prog)) in
+    let nt = Array.length aprogs in
+    let (acq, rel), ld = sl_ops in
+    let bytes b = List.map n_of_int (payload n b) in
+    let conv = function Acq -> acq | Rel -> rel | Ld -> ld | St b -> sl_store (bytes b) | Ln b -> sl_loan (bytes b) | Dc b -> sl_discard (bytes b) in
+    let progs = Array.map (List.map conv) aprogs in
+    let c = ref (slra_init (nat_of_int n) (bytes init_byte) [] (fun t -> let i = int_of_nat t in if i < nt then progs.(i) else [])) in
+    let step_k t k = let (g, ls) = !c in slra_step1 slra_ords_code (nat_of_int t) (slra_set_oracle g [n_of_int k], ls) in
+    let first_acc es = let rec f = function EAcc (_, _, _, k, _, _, rd, _, ok) :: _ -> Some (k, rd, ok) | _ :: r -> f r | [] -> None in f es in
+    (* the copy rides on the preceding gated access (coarse model): run the byte steps at once *)
+    let rec burst t = if slra_in_copy (snd !c (nat_of_int t)) then (match step_k t 0 with Some (c', es) -> c := c'; es @ burst t | None -> []) else [] in
+    let rec step t =
+      match step_k t 0 with
+      | None -> None
+      | Some (c0', []) -> c := c0'; let more = burst t in (match more with [] -> step t | _ -> (match step t with Some es -> Some (more @ es) | None -> Some more))
+      | Some (c0', es0) ->
+        let stale_site = match first_acc es0 with Some (KLoad, _, _) -> true | Some (KCas, _, false) -> true | _ -> false in
+        let matches es = match first_acc es with Some (_, rd, _) -> u64_string_of_n rd = !observed_rd | None -> false in
+        let chosen =
+          if (not stale_site) || matches es0 then Some (c0', es0)
+          else begin
+            let found = ref None in
+            for k = 1 to 64 do
+              if !found = None then match step_k t k with Some (ck, esk) when matches esk -> found := Some (ck, esk) | _ -> ()
+            done;
+            !found
+          end in
+        (match chosen with
+         | Some (c', es) ->
+           c := c'; let more = burst t in
+           if slra_race_used (fst !c) then raise (Failure "view model flags a racy used access under the code's ordering table");
+           Some (es @ more)
+         | None -> c := c0'; let more = burst t in Some (es0 @ more)) in
+    let finished t =
+      let rec go cc = match slra_step1 slra_ords_code (nat_of_int t) cc with None -> true | Some (c', []) -> go c' | Some _ -> false in go !c in
+    { nthreads = nt; step; finished;
+      final_ok = (fun toks ->
+        let (w, h) = slra_final (fst !c) in
+        let m = [ u64_string_of_n w; u64_string_of_n h ] in
+        if m = toks then None else Some (Printf.sprintf "model (write_cell,value code) [%s] impl [%s]" (String.concat "," m) (String.concat "," toks)));
+      spec = (fun rets final -> spec_check n aprogs rets final) }
   | size :: prog :: _ ->
     let n = int_of_string size in
     let aprogs = Array.of_list (List.map (fun t -> List.map parse_aop (split_on ',' t)) (String.split_on_char '|' prog)) in
